@@ -43,7 +43,7 @@ def check(run):
     PC.deductive(run)
     # the rule-based solver's own text surgery: single_impute adds '.<completion>' to one side of a copy of the row and rebuilds the
     # reaction from the two sides; the marker surgery of RuleConstraint that follows it is outside the subset (known finding)
-    run.deductive(["contracts.matcher", "contracts.comparator", "contracts.imputer"], only=["SyntheticRuleImputer.single_impute"])
+    run.deductive(["contracts.matcher", "contracts.comparator", "contracts.externals", "contracts.imputer"], only=["SyntheticRuleImputer.single_impute"])
     PC.bounded_rows(run, "given-molecules-kept", _row)
     run.assume("the marker surgery of RuleConstraint / curate_* (substring replace on whole side strings) is outside the verified "
                "subset; its call-site precondition (no marker inside the given part) is exercised only by the bounded runs")
